@@ -776,6 +776,45 @@ func (r *dRunner) runOp(op *dOp) map[string]interface{} {
 		} else {
 			ob["r"] = olricErr(lc.Lease(ctx, time.Duration(op.Ms)*time.Millisecond))
 		}
+	case "unlockdup":
+		// the holder's Unlock sent op.Count times at once (a duplicated / re-sent request): the token is valid for
+		// exactly one of them
+		n := op.Count
+		if n < 2 {
+			n = 2
+		}
+		rs := make([]string, n)
+		var wg sync.WaitGroup
+		if tv, ok := r.rawTv[op.Tok]; ok {
+			dk := r.rawTk[op.Tok]
+			kinfo := r.cl.KeyInfo(dk[0], dk[1])
+			for j := 0; j < n; j++ {
+				c := "raw@owner"
+				if j%2 == 1 {
+					c = "raw@other"
+				}
+				i, _ := r.memberFor(c, kinfo)
+				wg.Add(1)
+				go func(j, i int) {
+					defer wg.Done()
+					rs[j] = olricErr(r.cl.Raw(i).Do(ctx, "DM.UNLOCK", dk[0], dk[1], tv).Err())
+				}(j, i)
+			}
+		} else if lc, ok := r.locks[op.Tok]; ok {
+			for j := 0; j < n; j++ {
+				wg.Add(1)
+				go func(j int) {
+					defer wg.Done()
+					rs[j] = olricErr(lc.Unlock(ctx))
+				}(j)
+			}
+		} else {
+			ob["r"] = "harness:no such lock handle"
+			return ob
+		}
+		wg.Wait()
+		ob["rs"] = rs
+		ob["r"] = "done"
 	case "destroy":
 		ki = r.cl.KeyInfo(op.D, "x")
 		if israw {
